@@ -6,7 +6,30 @@ chk('C03',
     'Bounds: carriers and new-code snippets listed in evidence; containers of length <= 4; single edit (histories are C01). Outside: other programs, longer containers, other element kinds.',
     'symbolic execution (CrossHair+z3) of real index/slice kernels and public edit entry points; path-tree exhaustion over all integers; CPython parse + list semantics as oracle',
     'DESIGN.md section 4 C03')
-for _p in ['C01','C02','C04','C05','C06','C07','C08','C09','C10','C11','C12','C13','C14','C15','C16','C17','C18','C20']:
+
+chk('C01',
+    'Bounded symbolic model checking of the real code. K1: the text splice (_put_src/_params_offset) equals an independent splice and UTF-8 byte arithmetic for symbolic code points and all valid coordinates. '
+    'T1: _offset on symbolically re-laid-out trees (every column a free integer, order kept) for every tail/head/exclude/self_ setting equals the behaviour its docstring defines. '
+    'T2: "re-lettering": for EVERY Unicode scalar >= U+0080 at the marked positions of a carrier, an edit script yields exactly the re-lettering of the CPython-validated marker run (text + every position). '
+    'P1/P2: public edits and 2-edit histories on 29 carriers with all indices symbolic over Z; at each leaf CPython re-parses the source and the dump incl. every lineno/col_offset must equal the live tree.',
+    'Bounds: listed carriers/templates/scripts, containers <= 4 elements, histories of <= 2 edits, norm=True. Outside: other programs, longer histories, ASCII substitutions in the re-lettering cells.',
+    'symbolic execution (CrossHair+z3) of splice/offset kernels and edit entry points; symbolic column re-layout and Unicode re-lettering templates; CPython re-parse as leaf oracle',
+    'DESIGN.md section 4 C01')
+chk('C11',
+    'T1: the two-phase offset exactly as put_src(action="offset") issues it, on 13 tree templates whose every column is a free integer (order kept): for every spot strictly inside any node and inside no child, '
+    'every splice size (lines and bytes), nodes before do not move, nodes after move by exactly the delta, containing nodes grow. Path trees exhausted: holds for all column layouts of each line structure.',
+    'Bounds: 13 template line structures (incl. decorators, calls with interleaved keywords, multi-line lists, lambda, dict, comparison, with, comprehension, subscript). Outside: other structures; byte/char mapping is C01-K1.',
+    'symbolic execution of fst_core._offset on symbolic re-layouts of parsed templates; z3 decides every position comparison; reference = position map a trivia splice induces',
+    'DESIGN.md section 4 C11')
+chk('C12',
+    'K1: one inductive step of the modification registry from an arbitrary valid pre-state (unbounded in-progress count): every exit path (return, raise at any nesting level, refused nested modification, manual enter/success/fail) restores it exactly. '
+    'K2: validate_put_arglike refuses exactly the splices that violate call-argument ordering. P1: nine kinds of invalid request on 29 carriers + arguments carriers with all bounds symbolic over Z: '
+    'when the call raises, source, full attribute dump, links and registry equal the pre-state; a following valid edit with symbolic index succeeds and the CPython re-parse equals the tree.',
+    'Bounds: listed carriers and invalid-request table; pep8space values -3..5. Outside: faults injected at arbitrary internal points (not required by the property).',
+    'symbolic execution of _Modifying and the failing edit paths with symbolic indices; pre/post state equality; CPython re-parse after the follow-up edit',
+    'DESIGN.md section 4 C12')
+
+for _p in ['C02','C04','C05','C06','C07','C08','C09','C10','C13','C14','C15','C16','C17','C18','C20']:
     NA[_p] = 'check under construction in this session (see DESIGN.md section 4); will be claimed once its harness is committed'
 NA['C19'] = ('coercion maps (tree, mode) to a tree through unparse/ast.parse (C code) before any pfst coercion code runs: no integer, character or schedule variable survives '
              'symbolically, what remains is a finite table judged by the C parser, i.e. enumeration of concrete runs, not a solver question (DESIGN.md section 5)')
